@@ -42,6 +42,11 @@ CLAIMED = {
          "A real Reader reads partition logs whose physical layout is generated by the independent reference codec (formats 0/1/2 mixed, all codecs, compaction holes, compacted tails, retained empty batches, relative-offset wrappers, truncated tails) through fetch v2/v5/v10/v11 under cuts, NotLeader with migration, OffsetOutOfRange, empty answers, drops, and SetOffset calls issued between or concurrently with FetchMessage; the delivered sequence must equal the stored records from the position, and must be complete within a fetch-count budget.",
          "trusted: refcodec encoders for the layouts, the fake broker's serving rule (whole batches from the one containing the offset; optional tail truncation); deliveries to calls overlapping a SetOffset may belong to either position",
          "DESIGN.md section 5 C02"),
+ "C03": ("exploration",
+         "runtime monitor: offline oracle G1-G5 over the fake coordinator's commit / offset-fetch / membership history, the brokers' fetch journal and the applications' delivery and CommitMessages history (all on one logical clock)",
+         "Consumer-group histories with 1-4 real group Readers against a coordinator state machine (join/sync barriers, heartbeat answers, generation-checked commits, session and rebalance timers), with late joins, Close, crashes (network killed + eviction), forced rebalances, coordinator moves, error codes and dropped connections on every group API, lost commit responses and appends; checked: no over-commit, nil sync commit => recorded, resume exactly at the committed offset (broker side and application side, no gaps), every record below an acknowledged commit was delivered before it, and after the script every record is delivered within a request budget.",
+         "trusted: the fake coordinator's state machine and timers; reader<->member identity through unique client ids; duplicates (backward restarts) are permitted by the statement and only counted",
+         "DESIGN.md section 5 C03"),
 }
 
 REASON_NOT_BUILT = "check not built yet in this round (design in DESIGN.md section 5); no claim is made"
